@@ -300,8 +300,13 @@ func (b *windowTimeBuffer) purge(oldest time.Time, inclusive bool) {
 		return t.After(oldest)
 	}
 	l := len(b.window)
-	if l == 0 {
+	if l == 0 || b.size == 0 {
 		return
+	}
+	if b.start == l {
+		// The buffer was emptied while start was at the end of the backing slice
+		// and has since wrapped around: the data begins at index 0.
+		b.start = 0
 	}
 	if b.start < b.stop {
 		for ; b.start < b.stop; b.start++ {
